@@ -344,6 +344,13 @@ func runSchedule(t ev.Failer, c *ev.Collector, sc schedCase) (trace []string, fa
 		s.setPassthrough(true)
 		close(stopReaders)
 		for _, cs := range conns {
+			if cs.parked != nil {
+				// may be parked inside flushAOF with the server lock held
+				close(cs.parked.release)
+				cs.parked = nil
+			}
+		}
+		for _, cs := range conns {
 			cs.conn.Close()
 		}
 		for {
